@@ -139,6 +139,54 @@ def c17_task(n_targets):
         s.cleanup()
 
 
+def c17_elsewhere_task(layout):
+    """`config generate` and every later command are invoked from a directory other than the one that
+    holds the generated file (`-f <abs>/Monorail.json`), with a relative `source.path`: the source that
+    generate read is the one next to the invoking directory. Untouched -> every API succeeds; the
+    source edited -> every API fails."""
+    s = sc.Scratch("c17else")
+    try:
+        ports = (s.port(), s.port())
+        src = cfg_value(3, "Monorail.src.json", ports)
+        r = sc.Repo(s, "r", src["targets"], commands={"pkg/t0000": {"build": "x"}}, ports=False)
+        os.unlink(r.path("Monorail.json"))
+        cwd = r.path("conf") if layout == "subdir" else os.path.join(s.dir, "elsewhere")
+        os.makedirs(cwd, exist_ok=True)
+        src_text = json.dumps(src, indent=2)
+        with open(os.path.join(cwd, "Monorail.src.json"), "w") as f:
+            f.write(src_text)
+        f_arg = ["-f", r.path("Monorail.json")]
+        gen = r.mr(*f_arg, "config", "generate", stdin=src_text.encode(), cwd=cwd)
+        if gen.code != 0:
+            return {"judged": 0, "v": []}   # generating from elsewhere is refused: nothing to judge
+        r.commit("generated")
+        v = []
+        judged = 0
+        apis = [a for a in APIS if a[0] in ("config show", "target show -g", "checkpoint update", "analyze", "run", "result show")]
+        for name, argv in apis:
+            res = r.mr(*f_arg, *argv, env=r.trace_env(), cwd=cwd)
+            judged += 1
+            if res.code != 0:
+                v.append(("untouched-api-fails", "[invoked from %s] %s with untouched files: exit %s %s" % (layout, name, res.code, res.err[:200])))
+        with open(os.path.join(cwd, "Monorail.src.json"), "w") as f:
+            f.write(src_text.replace('"max_retained_runs": 3', '"max_retained_runs": 4'))
+        for name, argv in apis:
+            r.clear_traces()
+            res = r.mr(*f_arg, *argv, env=r.trace_env(), cwd=cwd)
+            judged += 1
+            if res.code == 0:
+                v.append(("tampered-api-succeeds", "[invoked from %s] %s succeeded after the source was edited" % (layout, name)))
+            if r.traces():
+                v.append(("tampered-api-executes", "[invoked from %s] %s started an executable after the source was edited" % (layout, name)))
+        return {"judged": judged, "v": [(sig, d, {"cli_c17_else": layout}) for sig, d in v], "size": 0}
+    except common.EngineError as e:
+        return {"engine_error": str(e)}
+    except Exception:
+        return {"engine_error": traceback.format_exc()[-1200:]}
+    finally:
+        s.cleanup()
+
+
 def strip_ts(d):
     if isinstance(d, dict):
         return {k: strip_ts(v) for k, v in d.items() if k != "timestamp"}
@@ -524,6 +572,7 @@ def run_slice(prop, tier):
     if prop == "C17":
         sizes = [3, 60, 400] if tier == "quick" else [3, 60, 160, 400, 1500]
         res = common.pmap(c17_task, sizes)
+        res += common.pmap(c17_elsewhere_task, ["subdir", "outside"])
     elif prop == "C18":
         res = common.pmap(c18_task, [3, 40] if tier == "quick" else [3, 40, 300])
     elif prop == "C08":
@@ -567,6 +616,8 @@ def replay_case(prop, case):
         r = c08_show_filters_task(0)
     elif "cli_c08_repeat" in case:
         r = c08_repeat_task(tuple(case["cli_c08_repeat"]))
+    elif "cli_c17_else" in case:
+        r = c17_elsewhere_task(case["cli_c17_else"])
     elif "cli_c17" in case:
         r = c17_task(case["cli_c17"])
     elif "cli_c18" in case:
